@@ -171,7 +171,11 @@ class C18(Check):
             return CaseResult(real, model, mon, '', None, info_d)
         # non-vacuity of the hash-path theorem: are its hypotheses (regular geometry, layout, descriptor room) met by this image?
         hyp = drv.ask(sexp(['save-hyp', geom['kind'], f]))
-        info_d['theorem-hypotheses:' + ('all-met' if hyp.startswith('ok') and all(x.endswith(':gldtwr') for x in hyp.split()[1:]) else hyp[:40])] = 1
+        parts_h = hyp.split()[1:] if hyp.startswith('ok') else []
+        info_d['theorem-hypotheses:' + ('all-met' if parts_h and all(x.split('+')[0].endswith(':gldtwr') for x in parts_h) else hyp[:40])] = 1
+        # the same-session theorems (C18_session*) additionally need a fully verifying tree; images with uninitialised blocks are
+        # generated on purpose, so this is a count, not a requirement
+        info_d['same-session-theorems-apply:' + ('yes' if parts_h and all(x.endswith('+v') for x in parts_h) else 'no (uninitialised or invalid blocks)')] = 1
         if case.get('mode') == 'lv3':
             return self.run_lv3(case, f, infos, ops, writable, real, model, sess, outs, info_d)
         refs = []
